@@ -38,6 +38,7 @@ DOCS = [
     ("lambda", "{ pkgs }:\n{\n  a = 1;\n  b = {\n    c = 2;\n  };\n}\n", None),
     ("call", "f {\n  a = 1;\n  b.c = 2;\n}\n", None),
     ("scoped", "let\n  v = 1;\n  w = {\n    k = 2;\n  };\nin\n{\n  a = 3;\n  b = 4;\n}\n", "scope"),
+    ("scoped-two-layers", "let\n  a = 1;\nin\nlet\n  s = 2;\n  t = 3;\nin\n{\n  k = 1;\n}\n", "scope"),
     ("scoped-attrpath", "let\n  v.x = 1;\n  u = 5;\nin\n{\n  a = 3;\n}\n", "scope"),
     ("ident-body", "let\n  cfg = {\n    a = 1;\n    b = 2;\n  };\n  other = 7;\nin\ncfg\n", "alias:cfg"),
     ("ident-body-with", "let\n  cfg = {\n    a = 1;\n    b = 2;\n  };\nin\nwith { cfg = { z = 9; }; };\ncfg\n", "alias:cfg"),
@@ -48,7 +49,11 @@ KEYS = ["a", "b", "c", "d", "e", "x", "y", "z", "n", "m", "p", "q", "k", "v", "w
 VALUES = [1, 2, 42, "s", "two words", True, False, [1, 2], [], {"k1": 1}, {"k1": 1, "k2": {"k3": "v"}}, {}]
 
 
-def read_text(text, alias=None):
+def count_lets(text):
+    return len(cst.find_target(cst.parse(text), follow_names=False)[1])
+
+
+def read_text(text, alias=None, nlets=None):
     """(core dict, scope dict | None) read by the independent reader, or raises cst.NotData."""
     tree = cst.parse(text)
     if cst.errors(tree):
@@ -61,9 +66,15 @@ def read_text(text, alias=None):
     else:
         data = cst.to_data(tree, core)
     scope = None
+    if nlets is not None and alias is None and (len(lets) < nlets - 1 or len(lets) > nlets):
+        raise cst.NotData(f"{len(lets)} let layers in the text, {nlets} at the start")
+    if nlets is not None and len(lets) == nlets - 1:
+        # the outermost layer (the one `expr.scope` maps to) lost its last binding and vanished with it
+        scope = {}
+        lets = []
     if lets:
         scope = {}
-        ln = lets[-1]
+        ln = lets[0] if alias is None else lets[-1]
         for it in cst._binding_items(ln):
             if it.type != "binding":
                 raise cst.NotData("inherit-in-let")
@@ -81,6 +92,17 @@ def read_text(text, alias=None):
             raise cst.NotData("alias target is not a set")
         data = scope[alias]
     return data, scope
+
+
+def differs(a, b) -> bool:
+    """Type-aware inequality: Python's `1 == True` and `2 == 2.0` are different Nix values."""
+    if isinstance(a, dict) and isinstance(b, dict):
+        return set(a) != set(b) or any(differs(a[k], b[k]) for k in a)
+    if isinstance(a, (list, tuple)) and isinstance(b, (list, tuple)):
+        return len(a) != len(b) or any(differs(x, y) for x, y in zip(a, b))
+    if type(a) is not type(b):
+        return True
+    return a != b
 
 
 def to_py(expr):
@@ -118,6 +140,7 @@ def make_machine(sh, blocked_docs, blocked_ops):
             self.shape, self.text0, self.extra = choices[i % len(choices)]
             self.src = nima.parse(self.text0)
             self.alias = self.extra.split(":", 1)[1] if self.extra and self.extra.startswith("alias:") else None
+            self.nlets0 = count_lets(self.text0)
             self.model, self.scope_model = read_text(self.text0, self.alias)
 
         def _fail(self, kind, detail):
@@ -190,7 +213,7 @@ def make_machine(sh, blocked_docs, blocked_ops):
                 got = to_py(obj[key])
             except Exception as e:  # noqa: BLE001
                 return self._fail(f"lookup-after-set-raises:{type(e).__name__}|{opclass}", {"key": key})
-            if got != value:
+            if differs(got, value):
                 return self._fail(f"lookup-after-set-differs|{opclass}", {"key": key, "want": value, "got": got})
             sh.classes[f"op:{opclass}@{'nested' if path else where}"] += 1
 
@@ -277,7 +300,7 @@ def make_machine(sh, blocked_docs, blocked_ops):
             if key not in model:
                 return self._fail("get-missing-returns-value", {"key": key})
             try:
-                if to_py(got) != model[key]:
+                if differs(to_py(got), model[key]):
                     return self._fail("get-returns-wrong-value", {"key": key, "want": model[key]})
             except cst.NotData:
                 pass
@@ -307,10 +330,10 @@ def make_machine(sh, blocked_docs, blocked_ops):
             except Exception as e:  # noqa: BLE001
                 return self._fail(f"rebuild-raises:{type(e).__name__}", {"exc": innermost_frame(e)})
             try:
-                data, scope = read_text(text, self.alias)
+                data, scope = read_text(text, self.alias, self.nlets0)
             except cst.NotData as e:
                 return self._fail("text-unreadable", {"why": str(e), "text": text[:300]})
-            if data != self.model:
+            if differs(data, self.model):
                 last = self.history[-1] if self.history else None
                 opk = (last[0] + ("-scope" if last[1] == "scope" else "-nested" if last[2] else "")) if last else "init"
                 return self._fail(f"text-disagrees-with-mapping|{opk}", {"model": self.model, "text": text[:400]})
@@ -329,6 +352,7 @@ def replay(case):
     nima.reset_state()
     src = nima.parse(case["doc"])
     alias = "cfg" if case["doc"].rstrip().endswith("in\ncfg") else None
+    nlets0 = count_lets(case["doc"])
     model, scope_model = read_text(case["doc"], alias)
     fails = []
     for op in case["ops"]:
@@ -372,8 +396,8 @@ def replay(case):
                 if kind == "del" or not isinstance(scope_model.get(alias), dict):
                     break
                 model = scope_model[alias]
-            data, scope = read_text(src.rebuild(), alias)
-            if data != model or (scope_model is not None and (scope or {}) != scope_model):
+            data, scope = read_text(src.rebuild(), alias, nlets0)
+            if differs(data, model) or (scope_model is not None and differs(scope or {}, scope_model)):
                 fails.append(("text-disagrees-with-mapping", {"model": model, "text": src.rebuild()[:300]}))
                 break
         except cst.NotData as e:
